@@ -144,6 +144,11 @@ def check_numeric(out: Outcome, rng, ref, test, lines, expect) -> None:
     dp = max(sum(1 for x in ref if x <= z) / n - sum(1 for x in test if x <= z) / m for z in pooled)
     dm = max(sum(1 for x in test if x <= z) / m - sum(1 for x in ref if x <= z) / n for z in pooled)
     V = max(dp, 0) + max(dm, 0)
+    D = max(dp, dm, 0)
+    if abs(ks[0] - V) > 1e-12 and abs(ks[0] - D) > 1e-12:
+        # the recorded finding KF-C12-1 is "the statistic is the KS distance D instead of Kuiper's V": a value that is NEITHER is another defect
+        out.violation(f"KuiperTest: statistic {ks[0]!r} is neither Kuiper's V = D+ + D- = {V!r} nor the two-sided KS distance {D!r} of the two empirical distribution functions",
+                      {**rep, "detector": "Kuiper"})
     bad = []
     if abs(ks[0] - V) > 1e-12:
         bad.append(f"statistic {ks[0]!r} is the KS D, Kuiper's V = D+ + D- is {V!r}")
@@ -213,6 +218,41 @@ def check_chi2(out: Outcome, rng, lines, expect) -> None:
     OBJECT_LABELS[0] = False
 
 
+def check_refit(out: Outcome, rng) -> None:
+    """one detector OBJECT fitted again: fit(A), compare(T), fit(B), compare(T) (with and without reset() in between) - the second result is the named test applied to
+    (B, T), i.e. what a new detector fitted on B returns"""
+    classes = dict(DET, Kuiper=KuiperTest, ChiSquare=ChiSquareTest)
+    for name, cls in classes.items():
+        if name == "ChiSquare":
+            A = [rng.choice(["a", "b", "c"]) for _ in range(rng.randint(10, 30))]
+            B = [rng.choice(["a", "b", "b", "b", "c", "d"]) for _ in range(rng.randint(10, 30))]
+            T = [rng.choice(["a", "a", "b", "c", "d"]) for _ in range(rng.randint(10, 30))]
+        else:
+            A, B = sample(rng, rng.randint(6, 20), "cont"), sample(rng, rng.randint(6, 20), rng.choice(["shift", "tied"]))
+            T = sample(rng, rng.randint(6, 20), rng.choice(["cont", "shift"]))
+        fixed = {"method": st.PermutationMethod(n_resamples=199, random_state=12345)} if name == "BWS" and math.comb(len(B) + len(T), len(T)) > 9999 else {}
+        for with_reset in (False, True):
+            rep = {"detector": name, "A": A, "B": B, "T": T, "reset_between": with_reset, "kind": "refit"}
+            try:
+                d = cls()
+                d.fit(X=np.array(A))
+                d.compare(X=np.array(T), **fixed)
+                if with_reset:
+                    d.reset()
+                d.fit(X=np.array(B))
+                r2 = d.compare(X=np.array(T), **fixed)[0]
+                fresh = cls()
+                fresh.fit(X=np.array(B))
+                r3 = fresh.compare(X=np.array(T), **fixed)[0]
+            except Exception as e:  # noqa: BLE001
+                out.violation(f"{name}: fit(A); compare; {'reset(); ' if with_reset else ''}fit(B); compare raised {type(e).__name__}: {e}", rep)
+                continue
+            if not (same(float(r2.statistic), float(r3.statistic)) and same(float(r2.p_value), float(r3.p_value))):
+                out.violation(f"{name}: fit(A); compare(T); {'reset(); ' if with_reset else ''}fit(B); compare(T) returns ({float(r2.statistic)!r}, {float(r2.p_value)!r}), a new detector "
+                              f"fitted on B returns ({float(r3.statistic)!r}, {float(r3.p_value)!r}): the comparison is not against the reference fitted last", rep)
+            out.case({"refit": name, "reset_between": with_reset, "h": hash(tuple(map(str, A + B + T))) & 0xFFFFFF})
+
+
 def run(out: Outcome) -> None:
     rng = rng_for(out.seed, "C12")
     thorough = out.tier == "thorough"
@@ -227,6 +267,11 @@ def run(out: Outcome) -> None:
         if i == 0:
             check_numeric(out, rng, [1.0, 2.0, 3.0], [1.5, 2.5, 3.5], lines, expect)
         a_, b_ = sample(rng, n, k1), sample(rng, m, k2)
+        if i in (4, 5):       # BOTH samples heavily tied on a common small alphabet (integer / rounded / binned features): values shared between and repeated within the samples
+            a_, b_ = sample(rng, max(n, 6), "tied"), sample(rng, max(m, 6), "tied")
+        if i == 6:            # the test sample IS the reference (tied): every statistic of "no difference"
+            a_ = sample(rng, max(n, 6), "tied")
+            b_ = list(a_)
         try:
             check_numeric(out, rng, a_, b_, lines, expect)
         except Exception as e:  # noqa: BLE001
@@ -237,6 +282,7 @@ def run(out: Outcome) -> None:
                           {"ref": a_, "test": b_, "kind": "exception"})
     for _ in range(60 if thorough else 20):
         check_chi2(out, rng, lines, expect)
+    check_refit(out, rng)
     # KF-C12-2: Kuiper on nearly identical samples of 290+ values (second branch of the series at N >= 144.7)
     for nn, shift in ((290, 3.5), (300, 4.5)):
         a = np.arange(float(nn))
